@@ -255,6 +255,71 @@ class SymOctets:
         return SymOctets(r) if isinstance(k, slice) else r
 
 
+_NT: List[Any] = []  # [NoTracing] once the symbolic engine is loaded (an import statement per call is traced and slow)
+
+
+def _untraced(fn: Any) -> Any:
+    if not _NT:
+        import sys
+
+        if 'crosshair.core' not in sys.modules:
+            return fn()
+        from crosshair.tracers import NoTracing
+
+        _NT.append(NoTracing)
+    with _NT[0]():
+        return fn()
+
+
+def _native_starts(elems: List[Any]) -> List[int]:
+    """Concrete start offsets of a fixed layout (computed outside the tracer)."""
+
+    def go() -> List[int]:
+        out, pos = [], 0
+        for e in elems:
+            out.append(pos)
+            pos += e.width if isinstance(e, wire.Tok) else bytes.__len__(e)
+        out.append(pos)
+        return out
+
+    return _untraced(go)
+
+
+def _native_locate(starts: Any, elems: List[Any], off: Any) -> Optional[Tuple[int, int]]:
+    import bisect
+
+    def go() -> Optional[Tuple[int, int]]:
+        o = int(off)
+        if o < 0 or o >= starts[-1]:
+            return None
+        i = bisect.bisect_right(starts, o) - 1
+        while i + 1 < len(starts) - 1 and starts[i + 1] == o:  # skip zero-width elements
+            i += 1
+        return i, o - starts[i]
+
+    return _untraced(go)
+
+
+def _native_get(starts: Any, elems: List[Any], key: Any) -> Optional[int]:
+    """Octet at a concrete offset when it is a concrete value (plain bytes or a concrete token): decided
+    wholly outside the tracer.  None -> take the general path."""
+    import bisect
+
+    def go() -> Optional[int]:
+        if type(key) is not int or key < 0 or key >= starts[-1]:
+            return None
+        i = bisect.bisect_right(starts, key) - 1
+        e = elems[i]
+        k = key - starts[i]
+        if isinstance(e, wire.Tok):
+            if type(e.value) is not int:
+                return None
+            return (e.value >> (8 * (e.width - 1 - k))) & 0xFF
+        return bytes.__getitem__(e, k)
+
+    return _untraced(go)
+
+
 class SymPacket:
     """A datagram as the element list produced by the encoder, readable like `bytes` by the real decoder:
     len(), integer indexing (octets of value tokens are arithmetic terms) and slicing."""
@@ -268,6 +333,9 @@ class SymPacket:
             pos = pos + elem_len(e)
         self.length = pos
         self.fixed_layout = not any(isinstance(e, Blob) for e in self.elems)
+        self._cstarts: Optional[List[int]] = None
+        if self.fixed_layout:
+            self._cstarts = _native_starts(self.elems)
 
     def __len__(self) -> Any:
         return self.length
@@ -277,6 +345,10 @@ class SymPacket:
             # every element has a concrete width: fork once on the value of a symbolic offset (at most
             # `length` values) instead of deciding one comparison per element with the solver
             off = concretize(off)
+            hit = _native_locate(self._cstarts, self.elems, off)
+            if hit is None:
+                raise IndexError('index out of range')
+            return hit
         for i, e in enumerate(self.elems):
             n = elem_len(e)
             if self.starts[i] <= off and off < self.starts[i] + n:
@@ -286,6 +358,10 @@ class SymPacket:
     def __getitem__(self, key: Any) -> Any:
         if isinstance(key, slice):
             return self._slice(key.start or 0, key.stop if key.stop is not None else self.length)
+        if self._cstarts is not None:
+            fast = _native_get(self._cstarts, self.elems, key)
+            if fast is not None:
+                return fast
         if key < 0:
             raise IndexError('negative index')
         i, k = self._locate(key)
